@@ -751,6 +751,8 @@ fn resolve_names_item_decl(ctx: &mut StaticsContext, symbol_table: &SymbolTable,
             resolve_identifier(ctx, &symbol_table, &iface_impl.iface);
             resolve_names_typ(ctx, &symbol_table, &iface_impl.typ, true);
             for f in &iface_impl.methods {
+                // each method has its own parameters and locals
+                let symbol_table = symbol_table.new_scope();
                 resolve_names_func_helper(ctx, &symbol_table, &f.args, &f.body, &f.ret_type);
             }
 
@@ -931,6 +933,8 @@ fn resolve_names_function_bodies(
                         .insert(f.name.id, fully_qualified_name);
                 }
 
+                // each method has its own parameters and locals
+                let symbol_table = symbol_table.new_scope();
                 resolve_names_func_helper(ctx, &symbol_table, &f.args, &f.body, &f.ret_type);
             }
         }
